@@ -115,12 +115,27 @@ func props() map[string]Prop {
 			ID: "C05", Level: "fault_enumeration",
 			Units: []Unit{
 				{Name: "counter", Pkg: "internal/counter", Harness: "internal_counter", Run: "^TestVerifC05", Instrument: append(append([]string{}, counterInstr...), "internal/telemetry"), Timeout: 40 * time.Minute},
+				{Name: "uploader", Pkg: "internal/upload", Harness: "internal_upload", Run: "^TestVerifC05Upload$", Instrument: append(append([]string{}, uploadInstr...), "internal/counter"), Timeout: 30 * time.Minute},
 			},
 			Assume: []string{
 				"faults are injected at the instrumented package-level os/syscall calls and *os.File methods of internal/counter, internal/mmap and internal/telemetry",
 				"'bounded number of steps' = loop-tick budget 64*mapping size + 2e6 per host call",
 				"truncation of a file that is currently mapped is outside the quantifier and not generated",
 			},
+		},
+		{
+			ID: "C18", Level: "exploration",
+			Units: []Unit{
+				{Name: "fsbucket", Module: "godev", Pkg: "internal/storage", Harness: "godev_storage", Run: "^TestVerifC18$", Timeout: 20 * time.Minute},
+			},
+			Assume: []string{"object names are ordinary slash-separated components (no '.', '..' or empty components) and no name is a directory-prefix of another", "the GCS backend needs network credentials and is not exercised"},
+		},
+		{
+			ID: "C12", Level: "exploration",
+			Units: []Unit{
+				{Name: "endpoint", Module: "godev", Pkg: "cmd/telemetrygodev", Harness: "godev_server", Run: "^TestVerifC12$", Timeout: 30 * time.Minute},
+			},
+			Assume: []string{"a valid report followed by non-blank trailing bytes is a don't-care (the statement does not say)", "the FS storage backend stands for the bucket"},
 		},
 	}
 	m := map[string]Prop{}
